@@ -91,7 +91,7 @@ impl Prop for C17 {
         }
     }
     fn rule(&self) -> &'static str {
-        "One case = one history of up to 60 operations over 1..5 users {create_user, remove_user, verify(right / wrong / other user's / a prefix / other case / the empty password, for live, removed, unknown and empty uids), create_session(default / lifetime 0 / long), refresh, invalidate by token, invalidate by user, get_uid_by_token, authenticated-route request over the simulated network with a valid / stale / absent cookie, advance the virtual wall clock to expiry-1s / expiry / expiry+1s / far future}, with or without a pepper, checked against a reference model after every step. Distinct = distinct sequence of (operation, outcome); non-trivial = at least one session created and the clock moved across or onto an expiry boundary."
+        "One case = one history of up to 60 operations over 1..5 users {create_user, remove_user, verify(right / wrong / other user's / a prefix / other case / the empty password, for live, removed, unknown and empty uids), create_session(default / lifetime 0 / long), refresh, invalidate by token, invalidate by user, get_uid_by_token, authenticated-route request over the simulated network with a valid / stale / absent cookie, advance the virtual wall clock to expiry-1s / expiry / expiry+1s / far future}, without a pepper or with one of 7, 32, 64 or about 100 bytes; passwords are short, long pass phrases differing only in their last character (70..120 bytes), runs of one letter at lengths around 32 and 64, or non-ASCII; checked against a reference model after every step. Distinct = distinct sequence of (operation, outcome); non-trivial = at least one session created and the clock moved across or onto an expiry boundary."
     }
     fn assumptions(&self) -> Vec<String> {
         vec![
@@ -109,15 +109,26 @@ impl Prop for C17 {
 
     fn generate(&self, seed: u64, idx: u64, tier: Tier) -> Value {
         let mut rng = Rng::new(run_seed(seed, "C17", idx));
+        // short passwords, long pass phrases that differ only in their last characters (so that
+        // anything that looks at a bounded prefix confuses them), and non-ASCII ones
+        fn gen_pw(rng: &mut Rng) -> String {
+            let k = rng.below(3);
+            match rng.below(20) {
+                0..=9 => format!("pw{}", k),
+                10..=13 => format!("correct horse battery staple, correct horse battery staple, and once more: {}", k),
+                14..=16 => format!("{}{}", "a".repeat([24usize, 31, 32, 56, 57, 63, 64, 120][rng.usize_below(8)]), k),
+                _ => format!("p\u{e4}ssw\u{f6}rd-\u{6771}\u{4eac}-{}", k),
+            }
+        }
         let nops = rng.range(4, if tier == Tier::Quick { 40 } else { 60 }) as usize;
-        let mut ops = vec![Op { op: "create_user".into(), u: 0, pw: "pw0".into(), lifetime: String::new(), tok: 0, garbage_token: false, jump: String::new() }];
+        let mut ops = vec![Op { op: "create_user".into(), u: 0, pw: gen_pw(&mut rng), lifetime: String::new(), tok: 0, garbage_token: false, jump: String::new() }];
         let mut users = 1;
         for _ in 0..nops {
             let r = rng.below(100);
             let mut o = Op { op: String::new(), u: rng.usize_below(6), pw: String::new(), lifetime: String::new(), tok: rng.usize_below(8), garbage_token: rng.chance(1, 10), jump: String::new() };
             if r < 6 && users < 5 {
                 o.op = "create_user".into();
-                o.pw = format!("pw{}", rng.below(3));
+                o.pw = gen_pw(&mut rng);
                 users += 1;
             } else if r < 10 {
                 o.op = "remove_user".into();
@@ -147,7 +158,13 @@ impl Prop for C17 {
         sim.strategy = "random".into();
         let scn = Scn {
             sim,
-            pepper: if rng.chance(1, 2) { Some("pepper!".into()) } else { None },
+            pepper: match rng.below(10) {
+                0..=3 => None,
+                4..=6 => Some("pepper!".into()),
+                7 => Some("0123456789abcdef".repeat(2)),
+                8 => Some("0123456789abcdef".repeat(4)),
+                _ => Some(format!("{}-{}", "long pepper ".repeat(8), rng.below(100))),
+            },
             default_lifetime: [60u64, 3600, 5][rng.usize_below(3)],
             refresh_lifetime: [60u64, 3600, 5][rng.usize_below(3)],
             ops,
